@@ -234,6 +234,8 @@ UNITS["C03"] = [
 ]
 
 UNITS["C10"] = [
+    dict(kind="structural", name="c10_sql_scoping", check="sql_actor_scoping", file="crates/klukai-agent/src/agent/util.rs",
+         trusted=["heuristic SQL reading (see c03_sql_scoping): buffered chunks of one actor are never deleted or rewritten by a statement selecting on another actor's (version, seq)"]),
     dict(kind="structural", name="c10_seq_guard", check="seq_range_guard", file="crates/klukai-agent/src/agent/handlers.rs", fn="handle_changes",
          trusted=["rangemap 1.6 RangeInclusiveMap::insert/remove assert start <= end (validated by depcheck: insert panics on an inverted range)"]),
     dict(kind="structural", name="c10_offer_loops", check="offer_loops", file="crates/klukai-agent/src/agent/util.rs", fn="process_multiple_changes",
